@@ -235,6 +235,25 @@ def vleHistory [OfScientific α] (c : Cls α) : Option VCache → List (Rows α 
   | _, [] => []
   | cache, (r, evs) :: rest => (vleCallC c cache r evs).1 :: vleHistory c (vleCallC c cache r evs).2 rest
 
+/-- What a *reactive* flash (`vle(..., gas_conversion=/liquid_conversion=)`, outside the property: it changes
+per-chemical totals by design) leaves in the VLE object as far as later ordinary calls can see: `_setup` stored
+`_nonzero` = present chemicals ∪ the reaction's stoichiometry keys and the index of that set.  The reaction
+delta `_dmol_vle` / `_dF_mol` also stays on the object; ordinary calls must not read it. -/
+def vleAfterReactive (c : Cls α) (nz : List Nat) : Option VCache :=
+  some { nz := nz, idx := c.vle.filter fun i => decide (i ∈ nz) }
+
+/-- One call of a history that may contain reactive flashes. -/
+inductive HCall (α : Type) where
+  | plain (r : Rows α) (evs : List (VEv α))            -- an ordinary call (inside the property)
+  | reactive (nz : List Nat) (dmol : List α) (dF : α)  -- a reactive flash: its key set and the leftovers `_dmol_vle`, `_dF_mol`
+
+/-- History on one VLE object with reactive flashes in between; `none` marks the (excluded) reactive calls. -/
+def vleHistoryR [OfScientific α] (c : Cls α) : Option VCache → List (HCall α) →
+    List (Option (Except Err (Rows α × VReg α)))
+  | _, [] => []
+  | cache, .plain r evs :: rest => some (vleCallC c cache r evs).1 :: vleHistoryR c (vleCallC c cache r evs).2 rest
+  | _, .reactive nz _ _ :: rest => none :: vleHistoryR c (vleAfterReactive c nz) rest
+
 /-! ### LLE -/
 
 /-- `chemicals.get_lle_indices(mol.nonzero_keys())` -/
